@@ -135,6 +135,7 @@ func verifC06History() {
 	writeLive := true // backend direction still inspected
 	readLive := true  // client direction still inspected
 	hellos := 0
+	sharedSeals := 0 // hellos the client sealed with the first hello's HPKE context
 	for i := 0; i < steps; i++ {
 		ev := vInt(0, 8)
 		if ev <= 4 { // ---- backend writes one record
@@ -181,12 +182,24 @@ func verifC06History() {
 		isHello := false
 		switch ev {
 		case 5:
-			if hellos >= 1 {
+			if hellos >= 2 {
 				continue
 			}
 			hellos++
 			isHello = true
-			rec, wantMsg, class, desc = vSecondHello(st, vInt(0, 9))
+			variant := 0 // a further hello (third of the connection) is an honest one: it must still not be processed
+			if hellos == 1 {
+				variant = vInt(0, 9)
+			}
+			rec, wantMsg, class, desc = vSecondHello(st, variant)
+			if sharedSeals > 0 {
+				// the client already sealed an earlier hello with this context: this one carries
+				// sequence number 2, which a server that processes it cannot open
+				wantMsg, class, desc = nil, ErrDecryptError, 51
+			}
+			if variant != 5 {
+				sharedSeals++
+			}
 		case 6:
 			rec = vRecord(20, 0x0303, []byte{1})
 		case 7:
